@@ -22,6 +22,13 @@ def run(tier, rep):
         raise vlib.Inconclusive("the Transform model violates %s: the specification is wrong, no verdict on the code" % r.violated)
     if not r.cases:
         raise vlib.Inconclusive("TLC emitted no cases")
+    if thorough:   # the same contract for scripts and call words of any length: inductive invariant, TLA+ proof system
+        ok, n, out = vlib.tlaps("Transform_proof")
+        if not ok:
+            log(out[-2000:])
+            raise vlib.Inconclusive("tlapm could not prove Transform_proof.tla")
+        rep.notes.append("Transform_proof.tla: all %d proof obligations discharged by tlapm (Shape, TerminalSticky, RawGate for unbounded histories)" % n)
+        log("[tlaps] Transform_proof: all %d obligations proved" % n)
     # 2. B1: replay on the real omniparser.Transform through a scripted Extension
     cases = os.path.join(vlib.scratch(), "c01.cases.ndjson")
     vlib.write_ndjson(cases, r.cases)
